@@ -37,8 +37,13 @@ Fixpoint unroll_group_loop (c : cmd) (fuel : nat) (g_vec : list id) (args : list
 Definition unroll_args_in_group (c : cmd) (g : id) : option (list id) :=
   unroll_group_loop c (S (S (length (c_groups c) + length (flat_map g_args (c_groups c))))) [g] [].
 
-(** [Command::unroll_arg_requires] with [func] = "predicate holds of [matched]" *)
-Fixpoint unroll_requires_loop (c : cmd) (func : pred * id -> option id) (fuel : nat)
+(** [Command::unroll_arg_requires] with [func] = "predicate holds of [matched]".
+    [func] judges the rules of the root [arg] itself; of an argument reached only through the chain only the
+    unconditional rules ([ArgPredicate::IsPresent]) are followed (and still passed through [func]). *)
+Definition pred_is_present (p : pred) : bool := match p with PIsPresent => true | PEquals _ => false end.
+Definition relevant_rule (func : pred * id -> option id) (is_root : bool) (rule : pred * id) : option id :=
+  if is_root || pred_is_present (fst rule) then func rule else None.
+Fixpoint unroll_requires_loop (c : cmd) (func : pred * id -> option id) (root : id) (fuel : nat)
          (r_vec processed args : list id) : option (list id) :=
   match fuel with
   | O => None
@@ -46,12 +51,13 @@ Fixpoint unroll_requires_loop (c : cmd) (func : pred * id -> option id) (fuel : 
       match r_vec with
       | [] => Some args
       | a :: rest =>
-          if mem_id a processed then unroll_requires_loop c func f rest processed args
+          if mem_id a processed then unroll_requires_loop c func root f rest processed args
           else
             let processed := processed ++ [a] in
             match find_arg c a with
-            | None => unroll_requires_loop c func f rest processed args
-            | Some arg =>
+            | None => unroll_requires_loop c func root f rest processed args
+            | Some arg_def =>
+                let is_root := beq a root in
                 let '(args', pushed) :=
                   fold_left (fun acc r =>
                                let '(args, pushed) := acc in
@@ -59,15 +65,15 @@ Fixpoint unroll_requires_loop (c : cmd) (func : pred * id -> option id) (fuel : 
                                              | Some req => if negb (is_nil (a_requires req)) then a_id req :: pushed else pushed
                                              | None => pushed end in
                                (args ++ [r], pushed))
-                            (filter_map func (a_requires arg)) (args, []) in
-                unroll_requires_loop c func f (pushed ++ rest) processed args'
+                            (filter_map (relevant_rule func is_root) (a_requires arg_def)) (args, []) in
+                unroll_requires_loop c func root f (pushed ++ rest) processed args'
             end
       end
   end.
 Definition requires_fuel (c : cmd) : nat :=
   S (S (S (length (flat_map a_requires (c_args c)) + length (flat_map a_requires (c_args c))))).
 Definition unroll_arg_requires (c : cmd) (func : pred * id -> option id) (a : id) : option (list id) :=
-  unroll_requires_loop c func (requires_fuel c) [a] [] [].
+  unroll_requires_loop c func a (requires_fuel c) [a] [] [].
 
 (** [gather_direct_conflicts] *)
 Definition gather_arg_direct_conflicts (c : cmd) (a : arg) : option (list id) :=
